@@ -122,14 +122,19 @@ Theorem C17_whole_engine_ttl : forall t ttl k rev v s now,
 Proof. exact badger_create_whole. Qed.
 Print Assumptions C17_whole_engine_ttl.
 
-(* memkv: the timer of the create removes an index written 1.5 s ago under a 2 s TTL (finding C17-F2) *)
-Theorem C17_memkv_ttl_refuted :
+(* memkv: the timer of a write removes the record it was armed for and nothing else. The index of a create under a
+   2 s TTL, replaced 1 s later by an update: the update's index is still there when the create's timer has fired
+   (the former defect C17-F2, fixed: the timer used to delete whatever the key held); left alone, the create's own
+   index goes at 2 s *)
+Theorem C17_memkv_ttl_own_record :
   let s1 := put_ent EMem 0 2000 (RIdx k_event 5 false) (mkTS [] []) in
   let s2 := put_ent EMem 1000 0 (RIdx k_event 6 false) s1 in
   map t_rec (ts_store (advance EMem 1300 s2)) = [RIdx k_event 6 false] /\
-  map t_rec (ts_store (advance EMem 2500 s2)) = [] /\ 2500 - 1000 < 2000.
+  map t_rec (ts_store (advance EMem 2500 s2)) = [RIdx k_event 6 false] /\
+  map t_rec (ts_store (advance EMem 1300 s1)) = [RIdx k_event 5 false] /\
+  map t_rec (ts_store (advance EMem 2500 s1)) = [].
 Proof. vm_compute. repeat split. Qed.
-Print Assumptions C17_memkv_ttl_refuted.
+Print Assumptions C17_memkv_ttl_own_record.
 
 (* the executable oracle accepts what the model produces: the TTL-choice cases *)
 Theorem C17_oracle_sound_ttl_choice_partial : forall prefix ettl k ttls,
@@ -144,24 +149,23 @@ Proof. exact c17_oracle_sound_ttl_write. Qed.
 Print Assumptions C17_oracle_sound_ttl_write.
 
 (* ... the engine-TTL cases, dump clause: on a history the model reproduces (every dump equals the model's store
-   at that time; wall times non-decreasing) every record missing from a dump belongs to an Event key and, on
-   Badger, its latest write is at least ttl old - the oracle reports nothing on Badger and nothing but the
-   signature of the known finding C17-F2 on memkv *)
+   at that time; wall times non-decreasing, every write with its own, larger revision) every record missing from a
+   dump belongs to an Event key and its latest write is at least ttl old - on memkv (a timer per write, removing only
+   the record it was armed for) and on Badger (entry expiry) alike *)
 Theorem C17_oracle_sound_engine_ttl_dumps : forall e prefix ttl_ms evs V,
-  mono 0 evs -> ttl_run e prefix ttl_ms (mkTS [] []) evs = Some V ->
-  ttl_oracle e prefix ttl_ms [] evs = None \/ (e = EMem /\ ttl_oracle e prefix ttl_ms [] evs = Some 2).
+  mono 0 0 evs -> ttl_run e prefix ttl_ms (mkTS [] []) evs = Some V ->
+  ttl_oracle e prefix ttl_ms [] evs = None.
 Proof. exact ttl_oracle_sound. Qed.
 Print Assumptions C17_oracle_sound_engine_ttl_dumps.
 
 (* ... the whole engine-TTL case, final Get / Create probes included, when the store the history ends in
    satisfies the relaxed well-formedness (C07) and the probes' revisions are above everything stored *)
 Theorem C17_oracle_sound_engine_ttl : forall e prefix ttl_ms evs fin,
-  mono 0 evs ->
+  mono 0 0 evs ->
   (forall V, ttl_run e prefix ttl_ms (mkTS [] []) evs = Some V ->
              wfd V /\ fresh V 1000000 /\ 1000000 + N.of_nat (length fin) <= max_rev) ->
   c17_check (KEngineTtl e prefix ttl_ms evs fin) = true ->
-  c17_oracle (KEngineTtl e prefix ttl_ms evs fin) = None \/
-  (e = EMem /\ c17_oracle (KEngineTtl e prefix ttl_ms evs fin) = Some 2).
+  c17_oracle (KEngineTtl e prefix ttl_ms evs fin) = None.
 Proof. exact c17_engine_ttl_sound. Qed.
 Print Assumptions C17_oracle_sound_engine_ttl.
 
@@ -277,7 +281,7 @@ Proof. vm_compute. repeat split. Qed.
 Example C17_ex_engine_ttl_sound_applies :
   let evs := [TCreate 0 k_event [1] 5; TDelete 150 k_event 6; TCreate 300 k_event [2] 7; TDump 2900 [RVer k_event 6 tombstone]] in
   let fin := [(k_event, None, WOk)] in
-  mono 0 evs /\
+  mono 0 0 evs /\
   (forall V, ttl_run EBadger pfx 2000 (mkTS [] []) evs = Some V ->
              wfd V /\ fresh V 1000000 /\ 1000000 + N.of_nat (length fin) <= max_rev) /\
   c17_check (KEngineTtl EBadger pfx 2000 evs fin) = true /\
@@ -298,3 +302,14 @@ Proof.
     + intros k r v [H|[]]. inversion H; subst. lia.
     + intros k r d [H|[]]. discriminate H.
 Qed.
+
+(* the former witness of C17-F2 as a history on memkv: an Event created under a 2 s TTL and updated 1 s later keeps the
+   update's index and version when the create's timers have fired; only the create's own version goes *)
+Example C17_ex_memkv_update_survives :
+  let evs := [TCreate 0 k_event [1] 5; TUpdate 1000 k_event [2] 6;
+              TDump 1300 [RIdx k_event 6 false; RVer k_event 5 [1]; RVer k_event 6 [2]];
+              TDump 2500 [RIdx k_event 6 false; RVer k_event 6 [2]]] in
+  mono 0 0 evs /\
+  ttl_run EMem pfx 2000 (mkTS [] []) evs = Some [RIdx k_event 6 false; RVer k_event 6 [2]] /\
+  c17_oracle (KEngineTtl EMem pfx 2000 evs [(k_event, Some (6, [2]), WFalse)]) = None.
+Proof. cbv zeta. split; [cbn; repeat split; lia|]. split; vm_compute; reflexivity. Qed.
